@@ -334,6 +334,24 @@ func (s *Translator) Enter(expression cypher.SyntaxNode) {
 	}
 }
 
+// parenthesizeCompoundOperand wraps binary and unary expressions other than property lookups in parentheses.
+func parenthesizeCompoundOperand(operand pgsql.Expression) pgsql.Expression {
+	switch typedOperand := operand.(type) {
+	case *pgsql.BinaryExpression:
+		if _, isPropertyLookup := expressionToPropertyLookupBinaryExpression(typedOperand); isPropertyLookup {
+			return operand
+		}
+
+		return pgsql.NewParenthetical(operand)
+
+	case *pgsql.UnaryExpression:
+		return pgsql.NewParenthetical(operand)
+
+	default:
+		return operand
+	}
+}
+
 func (s *Translator) resolveParameterValue(parameter *cypher.Parameter) any {
 	if value, hasValue := s.parameters[parameter.Symbol]; hasValue {
 		return value
@@ -584,11 +602,38 @@ func (s *Translator) Exit(expression cypher.SyntaxNode) {
 		}
 
 	case *cypher.ExclusiveDisjunction:
+		// XOR is emitted as boolean inequality. PostgreSQL's != binds tighter than AND, OR and NOT and does not
+		// chain with itself or the other comparison operators, so compound operands and intermediate results are
+		// parenthesized to keep the grouping Cypher gives them (a AND b XOR c AND d; a = 1 XOR b = 2; a XOR b XOR c).
+		operands := make([]pgsql.Expression, typedExpression.Len())
+
+		for idx := len(operands) - 1; idx >= 0; idx-- {
+			if operand, err := s.treeTranslator.PopOperand(); err != nil {
+				s.SetError(err)
+				return
+			} else {
+				operands[idx] = operand
+			}
+		}
+
+		for _, operand := range operands {
+			s.treeTranslator.PushOperand(parenthesizeCompoundOperand(operand))
+		}
+
 		for idx := 0; idx < typedExpression.Len()-1; idx++ {
 			if err := s.treeTranslator.CompleteBinaryExpression(s.scope, pgsql.OperatorNotEquals); err != nil {
 				// The operand stack is no longer consistent; stop here instead of popping further
 				s.SetError(err)
 				break
+			}
+
+			if idx < typedExpression.Len()-2 {
+				if intermediate, err := s.treeTranslator.PopOperand(); err != nil {
+					s.SetError(err)
+					break
+				} else {
+					s.treeTranslator.PushOperand(pgsql.NewParenthetical(intermediate))
+				}
 			}
 		}
 
